@@ -29,6 +29,9 @@ SECTION_NAMES = [".text", ".init", "weird name", ".text.unlikely", ".debug_x", "
 
 
 # BFD target names objdump prints in the banner (raw images and hex containers included): the banner is presentation
+# file names as objdump echoes them in the banner: paths, archive members, and names that happen to contain words objdump uses elsewhere
+BANNER_FILES = ["other.o", "fw.bin", "a b.exe", "lib.a(member.o)", "alarm.o", "/opt/arm-sdk/bin/tool", "mips/warm_boot.o", "powerpc_sparc_riscv.bin", "aarch64-linux-gnu/libc.so.6",
+                "file format.o", "Disassembly of section .text:", "s390x.o", "libfoo.a(arm.o)", "...", "0000000000401000 <main>:"]
 TARGETS = ["elf64-x86-64", "elf32-i386", "binary", "ihex", "srec", "pei-x86-64", "pe-x86-64", "mach-o-x86-64", "elf64-little", "tekhex", "verilog", "elf32-x86-64"]
 
 
@@ -130,10 +133,10 @@ def edit_listing(rng, text: str):
             elif "file format" in raw and do("file-header"):
                 if rng.random() < 0.5:
                     continue
-                raw = f"{rng.choice(['other.o', 'fw.bin', 'a b.exe', 'lib.a(member.o)'])}:     file format {rng.choice(TARGETS)}"
+                raw = f"{rng.choice(BANNER_FILES)}:     file format {rng.choice(TARGETS)}"
             out.append(raw)
     if rng.random() < 0.3:
-        out = ["", f"x.o:     file format {rng.choice(TARGETS)}", ""] + out
+        out = ["", f"{rng.choice(BANNER_FILES + ['x.o'] * 6)}:     file format {rng.choice(TARGETS)}", ""] + out
         edits.append("file-header-added")
     r9 = rng.random()
     if r9 < 0.12:
@@ -187,7 +190,7 @@ def _judge(ctx, ws, text, origin):
         # a rule that names sections (an option of the binary route): for a listing the banners stay presentation
         names = re.findall(r"Disassembly of section ([^:\n]+):", text) + [".text", ".init", "nosuch"]
         secs = ctx.rng.sample(sorted(set(names)), ctx.rng.randint(1, min(2, len(set(names)))))
-        cfg = "config:\n  sections:\n" + "".join(f"    - '{n}'\n" for n in secs)
+        cfg = "config:\n  sections:\n" + "".join(f"    - {__import__('json').dumps(n)}\n" for n in secs)
         rule_text = cfg + (rule_text[len("config:\n"):] if rule_text.startswith("config:") else rule_text)
         ctx.event("pairs_compared_under_a_rule_naming_sections")
     if 0.25 <= mode < 0.45:
